@@ -82,7 +82,7 @@ public:
 
     template<typename U>
     NDSizeBase(std::initializer_list<U> args)
-        : rank(args.size())
+        : rank(args.size()), dims(nullptr)
     {
         allocate();
 
@@ -102,7 +102,7 @@ public:
 
     template<typename U>
     NDSizeBase(const std::vector<U> &args)
-        : rank(args.size())
+        : rank(args.size()), dims(nullptr)
     {
         allocate();
 
